@@ -19,7 +19,13 @@ class N:
 class J:
     def __init__(s,n): s.n=n
     def __repr__(s): return 'J%r'%(s.n,)
-""" + "".join(f"    def __i{n}__(s,o): return J(('{n}',s.n,o))\n" for n in DUNDERS)
+""" + "".join(f"    def __i{n}__(s,o): return J(('{n}',s.n,o))\n" for n in DUNDERS) + """
+class M:
+    'a container indexed by anything: records every key it is read / written with'
+    def __init__(s): s.d = {}; s.log = []
+    def __getitem__(s, k): s.log.append(('get', repr(k))); return s.d[repr(k)]
+    def __setitem__(s, k, v): s.log.append(('set', repr(k))); s.d[repr(k)] = v
+"""
 
 OPERANDS = {'int': ('7', '2'), 'float': ('7.5', '2.0'), 'str': ("'ab'", "'c'"), 'list': ('[1,2]', '[3]'), 'tuple': ('(1,2)', '(3,)'),
             'set': ('{1,2}', '{2,3}'), 'dict': ("{'a':1}", "{'b':2}"), 'inplace': ("I(1)", "2"), 'noinplace': ("N(1)", "2"), 'inplace-new': ("J(1)", "2")}
@@ -27,7 +33,10 @@ TARGETS = {'name': ("x = {a}\nal = x\n", "x {op}= {b}\n", "L(x, al, x is al)\n")
            'attr': ("class O: pass\no=O()\no.f = {a}\nal = o.f\n", "o.f {op}= {b}\n", "L(o.f, al, o.f is al)\n"),
            'sub': ("d=[{a}]\nal = d[0]\n", "d[0] {op}= {b}\n", "L(d[0], al, d[0] is al)\n"),
            'slice': ("d=[{a},{a}]\nal = d[0]\n", "d[0:1] {op}= [{b}]\n", "L(d, al)\n"),
-           'slice-open': ("d=[{a},{a},{a}]\nal = d[1]\n", "d[1:] {op}= [{b}]\n", "L(d, al)\n")}
+           'slice-open': ("d=[{a},{a},{a}]\nal = d[1]\n", "d[1:] {op}= [{b}]\n", "L(d, al)\n"),
+           'slice-tuple': ("m=M()\nm[1:2, 3] = {a}\nal = m[1:2, 3]\n", "m[1:2, 3] {op}= {b}\n", "L(m.d, m.log, al)\n"),
+           'slices-tuple': ("m=M()\nm[::2, ..., :1] = {a}\nal = m[::2, ..., :1]\n", "m[::2, ..., :1] {op}= {b}\n", "L(m.d, m.log, al)\n"),
+           'index-tuple': ("m=M()\nm[1, 2] = {a}\nal = m[1, 2]\n", "m[1, 2] {op}= {b}\n", "L(m.d, m.log, al)\n")}
 
 
 def values(kind, m):
@@ -87,6 +96,9 @@ def destructuring_cases(ck):
     for lo, hi, st in itertools.product(['', '1', '-2'], ['', '3', '-1'], ['', ':', ':2', ':-1']):
         rhs = "[9]" if st in ('', ':') else "d[%s:%s%s]" % (lo, hi, st)
         yield f"slice:{lo}:{hi}:{st}", f"d = list(range(6))\nd[{lo}:{hi}{st}] = {rhs}\nL(d)\n"
+    # every index shape a subscript target can have (plain assignment, deletion is unsupported)
+    for k, idx in enumerate(["1:2, 3", "::2, ..., :1", "1, 2", "(1, 2)", "...", "1:2,", ":, :", "-1", "1:2:3, 4:5:6", "None", "'k'"]):
+        yield f"index-shape:{k}", f"m = M()\nm[{idx}] = 5\nx = m[{idx}]\nL(m.d, m.log, x)\n"
     yield "chained-mixed", "class O: pass\no = O()\nd = {}\na = o.b = d['k'] = (c, *e) = [1, 2, 3]\nL(a, o.b, d, c, e, a is o.b)\n"
 
 
